@@ -22,7 +22,7 @@ theorem step_some {s s' : St} {e : Ev} (h : step s e = some s') : guard s e = tr
 /-! ## event classes -/
 
 /-- events that close or re-open the delivery gate of `m` -/
-def gateB (m : Nat) (e : Ev) : Bool := isAsg m e || isSub m e || isRevS m e
+def gateB (m : Nat) (e : Ev) : Bool := isAsg m e || isSub m e || isRevS m e || isLeave m e
 /-- events after which `m`'s last revoke no longer counts: an adoption or a new revoke callback -/
 def prepB (m : Nat) (e : Ev) : Bool := isAsg m e || isRevS m e
 
@@ -57,9 +57,14 @@ structure Inv (pre : List Ev) (s : St) : Prop where
   fetched : ∀ m p lo hi, (p, lo, hi) ∈ (s.mem m).fetched → FetchedIn m p lo hi pre
   subch : ∀ m, (s.mem m).subChanged = true → .sub m ∈ pre
   cur : ∀ m, (s.mem m).cur ≠ [] → ∃ g, Since (· = .asgS m g (s.mem m).cur) (epochB m) pre
+  inrev : ∀ m, Since (· = .revS m) (isRevE m) pre → (s.mem m).inCb = 1
+  dead : ∀ m, (s.mem m).dead = true → .gone m ∈ pre
 
 theorem inv_init : Inv [] St.init := by
-  constructor <;> intros <;> simp_all [St.init]
+  constructor <;> intros <;> (try simp_all [St.init])
+  case inrev m h =>
+    obtain ⟨a, x, b, hab, _⟩ := h
+    simp at hab
 
 /-! ## transition summaries: how one accepted event changes the fields an invariant talks about -/
 
@@ -81,7 +86,7 @@ theorem post_gens_actor {s : St} {e : Ev} {m : Nat} (h : actor e = some m) :
   simp [post, h]
 
 theorem gateB_actor {e : Ev} {m : Nat} (h : actor e ≠ some m) : gateB m e = false := by
-  cases e <;> simp_all [actor, gateB, isAsg, isSub, isRevS]
+  cases e <;> simp_all [actor, gateB, isAsg, isSub, isRevS, isLeave]
 
 theorem post_gate (s : St) (e : Ev) (m : Nat) :
     (∃ g tps, e = .asgS m g tps ∧ ((post s e).mem m).gate = true ∧ ((post s e).mem m).cur = tps) ∨
@@ -91,7 +96,7 @@ theorem post_gate (s : St) (e : Ev) (m : Nat) :
   by_cases h : actor e = some m
   · rw [post_mem_self h]
     cases e <;> simp [actor] at h <;> subst h <;>
-      simp [upd, gateB, isAsg, isSub, isRevS] <;> (repeat' split) <;> simp_all
+      simp [upd, gateB, isAsg, isSub, isRevS, isLeave] <;> (repeat' split) <;> simp_all
   · right; right
     exact ⟨gateB_actor h, by rw [post_mem_other h], by rw [post_mem_other h]⟩
 
@@ -186,6 +191,14 @@ theorem step_wait {pre : List Ev} {s : St} {e : Ev} (I : Inv pre s) (hg : guard 
       have := (I.wait m hw).2.1
       simp [this] at hg
     case asgE m =>
+      simp [upd] at hw ⊢
+      obtain ⟨h1, h2, h3, h4⟩ := I.wait m hw
+      exact ⟨h1, h2, h3, by simp [h4]⟩
+    case gone m =>
+      simp [upd] at hw ⊢
+      obtain ⟨h1, h2, h3, h4⟩ := I.wait m hw
+      exact ⟨h1, h2, h3, by simp [h4]⟩
+    case leaveR m =>
       simp [upd] at hw ⊢
       obtain ⟨h1, h2, h3, h4⟩ := I.wait m hw
       exact ⟨h1, h2, h3, by simp [h4]⟩
@@ -377,12 +390,32 @@ theorem step_distT {pre : List Ev} {s : St} {e : Ev} (I : Inv pre s) (hg : guard
       simp [post, actor, postG, hG]
     · simp at hg
 
+theorem step_inrev {pre : List Ev} {s : St} {e : Ev} (I : Inv pre s) (hg : guard s e = true) (m : Nat)
+    (hs : Since (· = .revS m) (isRevE m) (pre ++ [e])) : ((post s e).mem m).inCb = 1 := by
+  rcases hs.of_snoc with rfl | ⟨h0, hb⟩
+  · simp [post, actor, upd]
+  · have h1 := I.inrev m h0
+    by_cases ha : actor e = some m
+    · rw [post_mem_self ha]
+      cases e <;> simp [actor] at ha <;> subst ha <;> simp [upd, isRevE] at hb ⊢ <;>
+        (try simp [guard, h1] at hg) <;> (try split) <;> (try exact h1) <;>
+        (try (split at hg <;> simp at hg))
+    · rw [post_mem_other ha]; exact h1
+
+theorem post_dead (s : St) (e : Ev) (m : Nat) (h : ((post s e).mem m).dead = true) :
+    e = .gone m ∨ (s.mem m).dead = true := by
+  by_cases ha : actor e = some m
+  · rw [post_mem_self ha] at h
+    cases e <;> simp [actor] at ha <;> subst ha <;> simp [upd] at h ⊢ <;> (try split at h) <;> simp_all
+  · rw [post_mem_other ha] at h
+    exact Or.inr h
+
 /-- every accepted event preserves the invariant -/
 theorem inv_step {pre : List Ev} {s s' : St} {e : Ev} (I : Inv pre s) (h : step s e = some s') :
     Inv (pre ++ [e]) s' := by
   obtain ⟨hg, rfl⟩ := step_some h
   refine ⟨?_, ?_, step_wait I hg, step_synced I hg, step_gens I hg, step_gensT I hg, step_distT I hg,
-    ?_, ?_, ?_, ?_⟩
+    ?_, ?_, ?_, ?_, step_inrev I hg, ?_⟩
   · intro m hgate
     rcases post_gate s e m with ⟨g, tps, rfl, _, hc⟩ | hf | ⟨hb, hg', hc⟩
     · exact ⟨g, Since.new pre (by rw [hc])⟩
@@ -415,6 +448,10 @@ theorem inv_step {pre : List Ev} {s s' : St} {e : Ev} (I : Inv pre s) (h : step 
     · rw [hc'] at hc
       obtain ⟨g, hs⟩ := I.cur m hc
       exact ⟨g, by rw [hc']; exact hs.snoc hb⟩
+  · intro m hd
+    rcases post_dead s e m hd with rfl | h0
+    · simp
+    · exact List.mem_append_left _ (I.dead m h0)
 
 theorem inv_reach {pre : List Ev} {s : St} (h : Reach step St.init pre s) : Inv pre s := by
   induction h with
